@@ -109,6 +109,13 @@ def run_cases():
              extra=lambda p: [] if all(f"{a}:" in p["query"] for a in ("x", "y", "p1", "p2")) else ["an aliased selection is missing: " + p["query"].replace("\n", " ")])
         case("inline-fragments-with-arguments-below-the-top-level",
              lambda: [Q.me().fields(U.pinned(max_hits=2).on("User", U.posts(first=7).fields(P.id)).on("Bot", cf.BotFields.model))], [2, 7])
+        # a nested abstract field selected ONLY through .on(...) (no arguments, no plain sub-fields of its own) whose inline
+        # fragments hold fields with arguments - at depth 2 and 3, next to a sibling with the same argument name
+        case("argument-less-abstract-field-selected-only-through-inline-fragments",
+             lambda: [Q.users(ids=["1"]).fields(U.pinned().on("User", U.meta_field(key="k")).on("Bot", cf.BotFields.model), U.meta_field(key="outer").alias("m"))],
+             [["1"], "k", "outer"])
+        case("inline-fragments-only-two-levels-deep",
+             lambda: [Q.me().fields(U.best_friend().fields(U.pinned().on("User", U.posts(first=4).fields(P.tags(tag_ids=["x"]).fields(T.id)))))], [4, ["x"]])
         case("camel-case-optional-argument-left-as-none-is-omitted",
              lambda: [Q.me().fields(U.pinned().on("Bot", cf.BotFields.model), U.posts(order_by=None).fields(P.id))], [])
         # falsy argument values are values: declared and transmitted (only None means "not given")
